@@ -143,14 +143,14 @@ func init() {
 	}
 	checks["C01"] = &CheckDef{
 		Pkgs:    []string{"./control"},
-		Harness: []string{"control:Verif_C01_one_rule", "control:Verif_C01_two_rules", "control:Verif_C01_shared_set"},
+		Harness: []string{"control:Verif_C01_one_rule", "control:Verif_C01_two_rules", "control:Verif_C01_shared_set", "control:Verif_C01_key_groups"},
 		MaxIter: 600,
 		Level:   "other",
 		LevelText: "A routing program of symbolic shape (condition kinds, '!' flags, one or two values or key groups, outbound with mark/must parameters, must_rules, fallback) is lowered by the real NormalizedProgram.Lower / RulesBuilder.Apply / ParseOutbound into the real RoutingMatcherBuilder.add* methods with symbolic typed values (ports, prefixes, MACs, process names, DSCP, protocol/version masks), compiled by the real BuildUserspace, and a fully symbolic packet is routed through the real ControlPlane.Route / RoutingMatcher.Match. The solver shows (outbound, mark, must) equal to a first-match evaluator written from the statement, for every packet and every value.",
 		LevelNote: "Trusted: go/ssa, executor, z3/cvc5, the evaluator in the harness. Contracts used instead of re-executing the set matchers: K-LPM (trie.Prefix2bin128 + NewTrieFromPrefixes + HasPrefix decide CIDR containment on the IPv4-mapped form; proved in C12) and K-DOM (the domain matcher's bitmap has bit i set iff the set added under RuleIndex i matches; C11) - each domain set's match is a free boolean. The text-to-value parsers (ParsePortRange, ParseMac, parsePrefixes ...) are bypassed: parser closures hand symbolic typed values to the real add* methods.",
 		Technique: techniqueText,
 		Explanation: "Bounded symbolic execution of rule lowering, compilation and the userspace matcher against a first-match specification.",
-		Bounds:  map[string]string{"quick": "shared_set: sip(P) -> x ; ip(P) -> y over one de-duplicated prefix set P (3 prefix forms), either negated; one rule + fallback: each of the 10 condition kinds, 1-2 values (domain: 1-2 key groups), negation symbolic, 4 outbound forms incl. must_rules; two rules + fallback: port && {ip | domain | mac} (1-2 values) then sport, first rule must_rules or a marked group; prefix forms v4/24, v6/64, v4/0; packet fully symbolic (both address forms for the destination, with and without a domain)", "thorough": "all 10 kinds in every position of the two-rule shape, 7 outbound forms, prefix forms /0 /24 /32 /64 /128"},
+		Bounds:  map[string]string{"quick": "key_groups: domain(full, suffix) && {dport | l4proto} in either written order; shared_set: sip(P) -> x ; ip(P) -> y over one de-duplicated prefix set P (3 prefix forms), either negated; one rule + fallback: each of the 10 condition kinds, 1-2 values (domain: 1-2 key groups), negation symbolic, 4 outbound forms incl. must_rules; two rules + fallback: port && {ip | domain | mac} (1-2 values) then sport, first rule must_rules or a marked group; prefix forms v4/24, v6/64, v4/0; packet fully symbolic (both address forms for the destination, with and without a domain)", "thorough": "all 10 kinds in every position of the two-rule shape, 7 outbound forms, prefix forms /0 /24 /32 /64 /128"},
 		Outside: []string{"more than two rules / two conditions per rule (the per-match-set loop state is the same for any length)", "string parsers of values", "config.patchMustOutbound"},
 		Assumptions: []string{"K-LPM (C12)", "K-DOM (C11): domain-set hits are free booleans", "logger is a no-op"},
 		QuickBudget: 8 * time.Minute, ThoroughBudget: 25 * time.Minute,
